@@ -151,6 +151,19 @@ CLAIMED = {
             "text + trace + std.trace lines form an Observe trace that Trace_Determinism accepts only if it is functional",
             "sampled programs and contexts, not all; wall-clock, memory limits and native stack exhaustion are outside",
             "DESIGN.md section C16"),
+    "C17": ("TLA+ specs Lexing (cursor machine: tokens tile the text, tree spells the input) and Position (characters with UTF-8 "
+            "widths, LineCol of every boundary, planted-construct layouts) model-checked by TLC; TLC-enumerated texts, boundaries and "
+            "layouts replayed on the lexer, syntax tree, offset mapper and formatted traces; Lex events validated by Trace_Lexing",
+            "TLC checks TilingInv of Lexing and the monotonicity laws of LineCol, enumerates every text over 6 character classes up to "
+            "5 (thorough 6) characters x every boundary and every planted layout (0-2 preceding lines of 6 kinds x 7 own-line prefixes x 9 "
+            "constructs x 3 followers x LF/CRLF); the implementation must report the line always and the column when the prefix is ASCII, "
+            "for both parsers; all C06 token sequences and literals (8 joiners), random and mutated texts must tile and be lossless "
+            "(Trace_Lexing); IR spans of generated and repository programs must lie inside the text, on character and token "
+            "boundaries, carry the labelled content and label the same tokens after re-spacing with non-ASCII comments and CRLF",
+            "trusted: TLC, the Python renderer of layouts (cross-checked against the model's line/column) and the tokenizer used for "
+            "re-spacing (programs it cannot tokenise are skipped); span content rules cover variables, call arguments, error/import "
+            "keywords, fixed field names",
+            "DESIGN.md section C17"),
     "C04": ("TLA+ specs Total (per-thread outcome protocol and histories), Stack (frame counter) and StdSig (boundary "
             "tuples) model-checked by TLC; source texts, every std function x boundary tuples, recursion sweeps and TLC-enumerated "
             "failure histories executed on the implementation and trace-validated against Trace_Total",
